@@ -160,6 +160,7 @@ type vBatchClient struct {
 	isOwed   [vBatchMax]bool
 	got      [vBatchMax]*conformancev1.ClientCompatRequest
 	diesAt   int // the server process ends just before this send (-1: never)
+	exitErr  error // what the server process ended with (nil: exit status 0)
 }
 
 func (c *vBatchClient) sendRequest(req *conformancev1.ClientCompatRequest, whenDone func(string, *conformancev1.ClientCompatResponse, error)) error {
@@ -182,7 +183,7 @@ func (c *vBatchClient) sendRequest(req *conformancev1.ClientCompatRequest, whenD
 	}
 	// the server may die right after this request was handed over
 	if c.diesAt == i+1 && c.proc.nDone > 0 {
-		c.proc.doneFns[0](errVerifExit)
+		c.proc.doneFns[0](c.exitErr)
 	}
 	return nil
 }
@@ -228,7 +229,10 @@ func h11(N int) {
 	useCerts := vBool("useCerts")
 	vAssume(useTLS || !useCerts) // a server instance uses client certificates only with TLS
 	proc := &vProc{}
-	client := &vBatchClient{proc: proc, diesAt: vInt("diesAt", -1, N)}
+	client := &vBatchClient{proc: proc, diesAt: vInt("diesAt", -1, N), exitErr: errVerifExit}
+	if vBool("exitClean") {
+		client.exitErr = nil // a server that goes away with exit status 0 is just as gone
+	}
 	vBatch = client
 	var cases []*conformancev1.TestCase
 	for i := 0; i < N; i++ {
@@ -277,6 +281,9 @@ func h11(N int) {
 			vAssert(ok, "when the batch function returns, every case of the batch has an outcome")
 		}
 	}
+	if crashed && client.diesAt >= 1 && (refusedAt < 0 || refusedAt >= client.diesAt) {
+		vAssert(client.sends == client.diesAt, "once the server process has ended - with or without an error - no further case is handed to the client")
+	}
 	// quiescence: the client answers what it still owes (the crash path deliberately returns before that)
 	client.resolve()
 	for i := 0; i < N; i++ {
@@ -289,6 +296,12 @@ func h11(N int) {
 		switch {
 		case !sent:
 			vAssert(o.setupError && o.actualFailure != nil, "a case that was never handed to the client is a setup error")
+			if crashed && refusedAt < 0 {
+				// the client is healthy, so the run's verdict rests on report(): the case must count as failed,
+				// not as one that "could not be run" (which report() leaves out of the failures)
+				var cnr *couldNotRunError
+				vAssert(!errors.As(o.actualFailure, &cnr), "a case not run because the server died counts against success")
+			}
 		case client.kind[i] == 0:
 			vAssert(o.setupError && o.actualFailure != nil, "a case whose send was refused is a setup error")
 		case client.kind[i] == 1:
